@@ -3,6 +3,7 @@ import L4.Drv.Conn
 import L4.Drv.Match
 import L4.Drv.Codec
 import L4.Drv.LB
+import L4.Drv.PP
 open L4 L4.Drv
 
 def dispatch (line : String) : String :=
@@ -12,6 +13,7 @@ def dispatch (line : String) : String :=
   | "match" :: rest => (doMatch.run rest).1
   | "codec" :: rest => (doCodec.run rest).1
   | "lb" :: rest => (doLB.run rest).1
+  | "pp" :: rest => (doPP.run rest).1
   | _ => "bad-op"
 
 partial def loop (h : IO.FS.Stream) (out : IO.FS.Stream) : IO Unit := do
